@@ -1,6 +1,6 @@
 SPECIFICATION Spec
-CONSTANT Deep = TRUE
-CONSTANT StrictLeapGuard = FALSE
+CONSTANT Deep = FALSE
+CONSTANT StrictLeapGuard = TRUE
 INVARIANT ImplRefines
 INVARIANT WellFormed2
 INVARIANT SubIsAddNeg
